@@ -582,6 +582,16 @@ def r20_8(chk):
         kind = [try_kind(kw.value) for kw in c.keywords if kw.arg == "kind"]
         stable = call_name(c) == "numpy.lexsort" or (kind and kind[0] in ("stable", "mergesort"))
         chk.decide(bool(stable), "R20.8", key(m, "Table.sorted", "stable permutation"), m.loc(c), f"{norm(c)}", f"`{norm(c)}` uses numpy's default (unstable) sort: rows with equal keys change their relative order (visible above 16 rows), unlike sorted(rows, key=...)")
+    # (iv) descending order by inverting the order, not by transforming the keys
+    transformers = []
+    for c in walk_no_nested(st):
+        if isinstance(c, ast.Name) and c.id in m.functions and isinstance(c.ctx, ast.Load):
+            body = m.functions[c.id]
+            if any(isinstance(x, ast.Call) and isinstance(x.func, ast.Attribute) and x.func.attr == "translate" for x in ast.walk(body)) or any(isinstance(x, ast.BinOp) and isinstance(x.op, ast.Mult) and any(norm(o) in ("-1", "-1.0") for o in (x.left, x.right)) for x in ast.walk(body)):
+                transformers.append(c)
+        if isinstance(c, ast.Call) and isinstance(c.func, ast.Attribute) and c.func.attr == "translate":
+            transformers.append(c)
+    chk.decide(not transformers, "R20.8", key(m, "Table.sorted", "descending by order inversion"), m.loc(transformers[0] if transformers else st), "no key transformation for reversed columns", f"`{norm(transformers[0]) if transformers else ''}` rewrites the key values of a reversed column (character translation / negation) and then sorts ascending: no per-character map inverts the order of strings when one is a prefix of another ('a' < 'ab'), and non-text, non-numeric keys (bool) have no such method")
     w = ci.methods["write"]
     adds = [st_ for st_ in walk_no_nested(w) if isinstance(st_, ast.Assign) and norm(st_.targets[0]) == "filename" and ".gz" in norm(st_.value)]
     if not adds:
@@ -591,7 +601,7 @@ def r20_8(chk):
         gs = [t for t, br in _guards(w, a) if br]
         okg = any(any(f"{nm} is None" == g or f"not {nm}" == g for nm in sfx_names) for g in gs)
         chk.decide(okg, "R20.8", key(m, "Table.write", "'.gz' only for names without a compression suffix"), m.loc(a), f"under {gs}", f"'.gz' is appended under {gs}, not under a test of the compression suffix get_format_suffixes found: write('x.tsv.bz2') produces x.tsv.bz2.gz and nothing at the requested path")
-    chk.floor("R20.8", 3, "predicate, sort, compression suffix")
+    chk.floor("R20.8", 4, "predicate, stable sort, order inversion, compression suffix")
 
 
 def r20_9(chk):
